@@ -82,6 +82,17 @@ def one(name, apply_fn, expected, args):
         missed = [e for e in exp if e not in caught]
         status = "CAUGHT" if caught else ("silent (expected)" if not expected else "MISSED")
         print("%-34s %s%s caught_by=%s expected=%s%s%s" % (name, s, status, ",".join(caught) or "-", ",".join(expected) or "-", (" NOT-BY=" + ",".join(missed)) if missed else "", (" MACHINERY=" + ",".join(broken)) if broken else ""))
+        if args.get("record"):
+            rp = os.path.join(VERIF, "seeded", "RESULTS.json")
+            allr = json.load(open(rp)) if os.path.exists(rp) else {}
+            allr[name] = {"caught_by": caught, "expected": expected, "suite": s.strip(), "classes": {c: v[3][:3] for c, v in res.items() if v[0] == 1}}
+            json.dump(allr, open(rp, "w"), indent=1, sort_keys=True)
+            mp = os.path.join(VERIF, "seeded", name, "meta.json")
+            if os.path.exists(mp):
+                m = json.load(open(mp))
+                m["caught_by"] = caught
+                m["caught_classes"] = {c: v[3][:4] for c, v in res.items() if v[0] == 1}
+                json.dump(m, open(mp, "w"), indent=1)
         if args.get("verbose"):
             for c, v in res.items():
                 if v[0] == 1:
@@ -94,7 +105,7 @@ def main():
     if not a or a[0] == "list":
         for m in M: print("%-34s %-34s expected=%s  %s" % (m[0], m[1], ",".join(m[4]) or "-", m[5]))
         return
-    args = {"suite": "--suite" in a, "verbose": "-v" in a}
+    args = {"suite": "--suite" in a, "verbose": "-v" in a, "record": "--record" in a}
     if "--checks" in a: args["checks"] = a[a.index("--checks") + 1].split(",")
     if "--tier" in a: args["tier"] = a[a.index("--tier") + 1]
     if sh("git status --porcelain", cwd=REPO).stdout.strip():
